@@ -80,6 +80,34 @@ impl F {
     }
 }
 
+/// doubles every parenthesis that delimits a logical group (not those of function calls)
+fn double_parens(s: &str) -> String {
+    let cs: Vec<char> = s.chars().collect();
+    let mut out = String::new();
+    let mut stack: Vec<bool> = vec![];
+    for (i, c) in cs.iter().enumerate() {
+        match c {
+            '(' => {
+                let call = i > 0 && (cs[i - 1].is_ascii_alphanumeric() || cs[i - 1] == '_');
+                stack.push(call);
+                out.push('(');
+                if !call {
+                    out.push('(');
+                }
+            }
+            ')' => {
+                let call = stack.pop().unwrap_or(true);
+                out.push(')');
+                if !call {
+                    out.push(')');
+                }
+            }
+            c => out.push(*c),
+        }
+    }
+    out
+}
+
 fn is_test(atom: &str) -> bool {
     !(atom.contains("==") || atom.contains('<') || atom.contains('>') || atom.contains("!="))
 }
@@ -210,6 +238,29 @@ fn boolean_part(run: &Run, k_max: usize) -> Acc {
     for k in 0..=k_max {
         forms.extend(trees(k, &mut memo));
     }
+    // double and triple negation, and negations nested under a connective (formulas with at most one connective)
+    {
+        let nn = |f: &F| F::Not(Box::new(F::Not(Box::new(f.clone()))));
+        let small: Vec<F> = (0..=1.min(k_max)).flat_map(|k| trees(k, &mut memo)).collect();
+        let mut extra = vec![];
+        for f in &small {
+            extra.push(nn(f));
+            extra.push(F::Not(Box::new(nn(f))));
+            for a in 0..3 {
+                extra.push(F::And(Box::new(nn(f)), Box::new(F::Atom(a))));
+                extra.push(F::Or(Box::new(F::Atom(a)), Box::new(nn(f))));
+                extra.push(F::Not(Box::new(F::And(Box::new(F::Atom(a)), Box::new(nn(f))))));
+            }
+        }
+        if k_max >= 2 {
+            for (i, f) in trees(2, &mut memo).iter().enumerate() {
+                if i % 4 == 0 {
+                    extra.push(nn(f));
+                }
+            }
+        }
+        forms.extend(extra);
+    }
     let jobs: Vec<(usize, bool)> = (0..atom_sets.len()).flat_map(|a| [(a, false), (a, true)]).collect();
     let mut total = Acc::new();
     for (ai, as_obj) in jobs {
@@ -239,9 +290,17 @@ fn boolean_part(run: &Run, k_max: usize) -> Acc {
             .par_iter()
             .map(|f| {
                 let mut acc = Acc::new();
-                for (full, sp) in [(false, ""), (true, ""), (false, " ")] {
+                for (full, sp) in [(false, ""), (true, ""), (false, " "), (true, "((")] {
                     let mut e = String::new();
-                    f.render(atoms, full, sp, &mut e);
+                    if sp == "((" {
+                        // every parenthesis of the fully parenthesised rendering doubled
+                        let mut t = String::new();
+                        f.render(atoms, true, "", &mut t);
+                        e = double_parens(&t);
+                    } else {
+                        f.render(atoms, full, sp, &mut e);
+                    }
+                    let sp = if sp == "((" { "" } else { sp };
                     let q = if sp.is_empty() { format!("$[?{}]", e) } else { format!("$[? {} ]", e) };
                     let ast = match rfc_parse(&q) {
                         Ok(a) => a.0,
